@@ -76,9 +76,12 @@ MergeClosureFirst(n, gs, J) ==
 MergeIgnoreFirst(gs, J) ==
   LET P == Present(gs) IN Merged(gs, {L \cap P : L \in J})
 
-(* The statement "cells no longer present are ignored" admits both readings; they differ only
-   when an absent cell is the sole bridge between two sublists.  The spec allows both. *)
-MergeOutcomes(n, gs, J) == {MergeClosureFirst(n, gs, J), MergeIgnoreFirst(gs, J)}
+(* Which reading?  The statement demands that the result is the same "for any order or redundancy of the join
+   lists": [[4, 0, 3]], [[4, 0], [0, 3]] and [[0, 3], [4, 0], [3, 0]] are spellings of one request.  Under
+   reading 2 the single list [[4, 0, 3]] with cell 0 absent unites 3 and 4 while [[4, 0], [0, 3]] does not,
+   so only reading 1 (which is also what the docstring of merge_matrix_cells promises) is consistent.
+   Reading 2 is kept as an operator: the model shows both coincide whenever all listed cells are present. *)
+MergeOutcomes(n, gs, J) == {MergeClosureFirst(n, gs, J)}
 
 DeleteOutcome(gs, D) == {g \in gs : g \cap D = {}}
 
